@@ -172,7 +172,8 @@ fn listing_inner(p: &Path) -> Vec<String> {
 fn probe_env(env: &libcnb::layer_env::LayerEnv) -> Value {
     // behavioural dump: apply for fixed scopes / starting envs
     let mut out = Vec::new();
-    for scope in [Scope::All, Scope::Build, Scope::Launch, Scope::Process("web".into()), Scope::Process("worker".into()), Scope::Process("nope".into())] {
+    for scope in [Scope::All, Scope::Build, Scope::Launch, Scope::Process("web".into()), Scope::Process("worker".into()), Scope::Process("nope".into()),
+                  Scope::Process("web.1".into()), Scope::Process("web.2".into())] {
         for start in 0..2 {
             let mut e = Env::new();
             if start == 1 {
@@ -222,6 +223,12 @@ fn result_from_inner<M>(spec: &Value, metadata: M, layer_path: &Path) -> Result<
             std::fs::create_dir_all(parent).unwrap();
         }
         std::fs::write(p, unhex(f[1].as_str().unwrap())).unwrap();
+    }
+    for l in jarr(spec, "symlinks") {
+        let l = l.as_array().unwrap();
+        let p = layer_path.join(l[0].as_str().unwrap());
+        let _ = std::fs::remove_file(&p);
+        std::os::unix::fs::symlink(l[1].as_str().unwrap(), p).unwrap();
     }
     for f in jarr(spec, "delete_files") {
         let _ = std::fs::remove_file(layer_path.join(f.as_str().unwrap()));
